@@ -58,6 +58,39 @@ export function runHistory(ctx, c, res) {
   let prevTree = first.tree
   let changedOnce = false
   const before = { ...live.tr.counts }
+  // a dynamic-slots child changes its slot values on its own, before the host was ever updated: the slot content is
+  // re-run by closures of the host's creation pass. The instance must equal a fresh one whose child got that list from the host.
+  if (!c.synthetic && ((c.caseSeed >>> 3) & 3) === 0) {
+    const dnode = c.fs.files[c.fs.main].children.find((n) => n.t === 'el' && (n.tag === 'd-s' || n.tag === 'd-k'))
+    const le = dnode && dnode.attrs[0] && dnode.attrs[0].value.parts[0].e
+    const setAt = le && le.t === 'id' ? (D, v) => { D[le.name] = v; return true } : le && le.t === 'mem' && le.o.t === 'id' ? (D, v) => { if (!D[le.o.name] || typeof D[le.o.name] !== 'object') return false; D[le.o.name][le.name] = v; return true } : null
+    let child = null
+    const find = (n) => { if (child || n.childNodes === undefined) return; if (n.is === 'cmp/d-s' || n.is === 'cmp/d-k') { child = n; return } n.childNodes.forEach(find) }
+    live.comp.getShadowRoot().childNodes.forEach(find)
+    const L = child && child.data.list
+    if (setAt && child && Array.isArray(L) && L.length && L.every((it) => it && typeof it === 'object')) {
+      const Lp = [...L.map((it) => ({ ...it, v: String(it.v) + '!' })), { ...L[0], k: 'k-new', id: 'id-new', v: 'appended' }]
+      const base = mk()
+      if (setAt(base, Lp.map((it) => ({ ...it })))) {
+        try { withWarnings(ge, live.tr, () => child.setData({ list: Lp })) } catch (e) {
+          viol(`a dynamic-slots child changed its slot values before the first update of the host: ${String(e.message || e).slice(0, 200)}`, { step: 'child-first', error: String(e.stack || e).slice(0, 800) })
+          return
+        }
+        const fresh = freshTree(ge, G, c.fs.main, base, extra, pc, dsc)
+        report.evals()
+        report.count('child_first_steps')
+        if (fresh.error) { report.count('fresh_creation_throws'); return }
+        const dropList = (nodes) => nodes.map((n) => (n.k !== 'el' ? n : { ...n, ch: n.tag === 'd-s' || n.tag === 'd-k' ? Object.fromEntries(Object.entries(n.ch || {}).filter(([k]) => k !== 'r')) : n.ch, children: dropList(n.children || []) }))
+        // (other readers of the host field see the host's own value: only the content of the child is compared)
+        const pick = (nodes) => { for (const n of nodes) { if (n.k === 'el' && (n.tag === 'd-s' || n.tag === 'd-k')) return [n]; const r = n.children && pick(n.children); if (r) return r } return null }
+        const d = diffSnap(maskPaths(dropList(pick(snap(ge, live.comp, live.tr, {})) || [])), maskPaths(dropList(pick(fresh.tree) || [])))
+        if (d) viol(`after a dynamic-slots child changed its slot values (before the first update of the host) the slot content is stale: ${d}`.slice(0, 500), { step: 'child-first', diff: d })
+        // (the child now holds a list the host data does not describe: the history ends here)
+        c.nontrivial = true
+        return
+      }
+    }
+  }
   for (let i = 0; i < c.ops.length; i++) {
     const o = c.ops[i]
     let drove
